@@ -13,7 +13,8 @@
 2. The named deviations of the specification must each be refuted by TLC (non-vacuity): the as-coded
    start inversion (InvertStartBySecTruncation), the site captured at the join epoch but converted
    with the start epoch (CaptureAtJoinEpoch) and a conversion memo on the config object that ignores
-   the epoch (CacheIgnoresEpoch) each break SiteFixed.
+   the epoch (CacheIgnoresEpoch) and step epochs built through the host's local time zone
+   (LocalTimeEpoch) each break SiteFixed.
 3. impl -> spec: REAL scenarios with ground sensors configured in latitude / longitude /
    altitude (public configuration keys), start instants sweeping the second of the minute and
    crossing midnights, steps 2-900 s; in every scenario one or two of the sites are left out of
@@ -21,7 +22,11 @@
    public Scenario.addSensor(SensingAgentConfig object, engine_id).  Scenarios are built from
    validated config OBJECTS; for about half of the sites a "scenario A" starting 6 h 17 min 43 s
    earlier is built from the same objects first.  Every agent is also observed at the instant it
-   is created / joins, before any propagation.  For elapsed times of days and whole-day
+   is created / joins, before any propagation.  The HOST's time zone is part of the posed
+   environment: a share of the scenarios runs in dedicated spawned worker processes with TZ set
+   (POSIX strings: US, EU, southern-hemisphere daylight-saving rules, a fixed offset) before anything
+   is imported, with start instants placed so that the run, read as local wall-clock time, crosses the
+   zone's spring-forward / fall-back switch.  For elapsed times of days and whole-day
    steps, ground agents are built like ScenarioBuilder builds them and stepped directly through
    the step plans printed by TLC.  After every real step the driver projects each ground
    agent to integers: displacement (mm) between the configured Earth-fixed position
@@ -64,6 +69,23 @@ SIG_OF_INV = {"TrStartInversionExact": "ground-site-start-instant-not-recovered"
               "SiteFixed": "ground-site-displaced", "VelIsRotation": "ground-site-velocity-not-earth-rotation"}
 
 
+# host time zones as POSIX TZ strings (no tz database needed): (TZ, spring-forward rule, fall-back rule),
+# a rule = (month, week of the month (5 = last), naive local hour at which the clock switches), Sundays
+TZ_RULES = {"us": ("EST5EDT,M3.2.0,M11.1.0", (3, 2, 2), (11, 1, 2)),
+            "eu": ("CET-1CEST,M3.5.0,M10.5.0/3", (3, 5, 2), (10, 5, 3)),
+            "au": ("AEST-10AEDT,M10.1.0,M4.1.0/3", (10, 1, 2), (4, 1, 3))}
+TZ_FIXED = "UTC+7"
+
+
+def _switch_instant(year: int, rule) -> datetime:
+    """Naive wall-clock instant of a daylight-saving switch: the week-th Sunday of the month, at hour."""
+    month, week, hour = rule
+    first = datetime(year, month, 1)
+    sundays = [first + timedelta(days=d) for d in range(31)
+               if (first + timedelta(days=d)).month == month and (first + timedelta(days=d)).weekday() == 6]
+    return (sundays[-1] if week == 5 else sundays[week - 1]) + timedelta(hours=hour)
+
+
 def _lon_deg(ticks: int, n: int = 86400) -> float:
     """Abstract longitude class of GroundSite.tla (ticks of a day) -> degrees in (-180, 180]."""
     deg = ticks * 360.0 / n
@@ -74,6 +96,16 @@ def _lon_deg(ticks: int, n: int = 86400) -> float:
 # worker side: one real scenario
 # ======================================================================================
 def _init_worker():
+    from .. import scenario_util  # noqa: F401
+
+
+def _init_tz_worker(tz: str):
+    """A dedicated (spawned) worker process whose HOST time zone is `tz`: set before anything of the
+    simulator is imported or built; the process serves only tasks of this zone and is discarded."""
+    import os
+    import time
+    os.environ["TZ"] = tz
+    time.tzset()
     from .. import scenario_util  # noqa: F401
 
 
@@ -229,6 +261,14 @@ def _run_sites(task):
                 a["rec"]["st"][j - 1]["dbDispMm"] = cal.cap(float(np.linalg.norm(ecef[:3] - a["x"][:3])) * 1e6)
         out["agents"] = [a["rec"] for a in agents]
         out["steps_taken"] = k[0]
+        if "tz" in task:     # what the environment of this process really is (evidence, not an oracle)
+            import os
+            import time
+            out["tz_env"] = [os.environ.get("TZ"), list(time.tzname)]
+            out["tz_switch_seen"] = any(datetime.fromtimestamp(start.timestamp() + j * dt) != start + timedelta(seconds=j * dt)
+                                        for j in range(1, nsteps + 1))
+            for a in out["agents"]:
+                a["tz"] = task["tz"]
     except Exception as ex:  # noqa: BLE001
         import traceback
         out["crash"] = f"{type(ex).__name__}: {ex}"
@@ -388,6 +428,51 @@ def _tasks(ctx: Ctx, site_cfgs, mids, rng):
     return tasks
 
 
+def _zone_tasks(ctx: Ctx, zone_cfgs, first_id):
+    """Scenarios run under a host time zone other than UTC (classes printed by GroundSite.tla): a fixed
+    offset, daylight-saving zones on an ordinary day, and runs whose UTC datetimes - read as local
+    wall-clock times - cross the zone's spring-forward / fall-back switch after the spec's number of steps."""
+    by = {}
+    for c in zone_cfgs:
+        z = tuple(c["zone"])
+        if z[0] != "utc":
+            by.setdefault((c["startSec"], c["dt"], z), []).append(c)
+    classes = sorted({k[2] for k in by})
+    dts = sorted({k[1] for k in by})
+    tasks = []
+    rules = sorted(TZ_RULES)
+    for sec in sorted({k[0] for k in by}):
+        picks = [(classes[sec % len(classes)], dts[(sec // len(classes)) % len(dts)])] if ctx.quick else \
+                [(z, d) for z in classes for d in dts]
+        for j, (z, dt) in enumerate(picks):
+            cfgs = by.get((sec, dt, z))
+            if not cfgs:
+                continue
+            steps = cfgs[0]["steps"]
+            lons = sorted({c["lon"] for c in cfgs})
+            lons = lons[(sec + j) % len(lons):] + lons[:(sec + j) % len(lons)]
+            sites = [(LATS[(sec + j + q) % len(LATS)], round(_lon_deg(lon), 6), ALTS[(sec + q) % len(ALTS)])
+                     for q, lon in enumerate(lons[:3 if ctx.quick else 4])]
+            year = 2014 + (sec + j) % 8
+            name = rules[(sec + j) % len(rules)]
+            tz, spring, fall = TZ_RULES[name]
+            kind, after, jump = z
+            if kind == "fixed":
+                tz = TZ_FIXED
+                t0 = datetime(year, 1 + sec % 12, 1 + sec % 28, (sec * 5) % 24, (sec * 7) % 60, sec)
+                crosses = False
+            elif after >= steps:        # a daylight-saving zone, no switch during the run
+                t0 = datetime(year, 6 if name != "au" else 12, 1 + sec % 28, (sec * 5) % 24, (sec * 7) % 60, sec)
+                crosses = False
+            else:                       # the switch falls within step after + 1 of the run
+                switch = _switch_instant(year, spring if jump > 0 else fall)
+                t0 = switch - timedelta(seconds=after * dt + 60) + timedelta(seconds=sec)
+                crosses = True
+            tasks.append({"id": first_id + len(tasks), "start": cal.fmt(t0), "dt": dt, "steps": steps, "sites": sites,
+                          "tz": tz, "zone": list(z), "tz_crosses": crosses, "boundary": "zone", "crosses": False, "theta0": -2})
+    return tasks
+
+
 def _plan_tasks(ctx: Ctx, plan_cfgs, mids, first_id):
     """Cross the step plans TLC printed (per start second, longitude and Earth-angle class) with real
     start instants and sites: one task per start second."""
@@ -439,7 +524,7 @@ def _project(task, rec, idx):
     st0 = dict(rec["st0"])
     st0["jdOk"] = idx.jd_ok(st0.pop("jd"), start + timedelta(seconds=join * task.get("dt", 0)))
     return {"startSec": start.second, "dt": task.get("dt", 1), "plan": plan[:len(st)], "db": 0 if "plan" in rec else (2 if join else 1),
-            "join": join, "reused": rec.get("reused", 0), "invMs": rec["invMs"], "st0": st0, "st": st}
+            "join": join, "reused": rec.get("reused", 0), "tz": rec.get("tz", "UTC"), "invMs": rec["invMs"], "st0": st0, "st": st}
 
 
 def _validate(ctx: Ctx, items, idx):
@@ -488,6 +573,8 @@ def _validate(ctx: Ctx, items, idx):
             how += f", added through Scenario.addSensor after {rec['join']} steps ({rec['join'] * task['dt']} s)"
         if rec.get("reused", 0):
             how += ", config object already used for a scenario starting 6 h 17 min 43 s earlier"
+        if rec.get("tz"):
+            how += f", host time zone TZ={rec['tz']}"
         mode = "agent" if "plan" in rec else "scenario"
         for inv in sorted(invs):
             ctx.violation(SIG_OF_INV.get(inv, inv),
@@ -496,39 +583,55 @@ def _validate(ctx: Ctx, items, idx):
                           f"{worst / 1000:.1f} m over {len(tr['st'])} steps)",
                           {"mode": mode, "start": task["start"], "dt": task.get("dt"), "steps": task.get("steps"),
                            "plan": rec.get("plan"), "sites": [rec["site"]], "join": rec.get("join", 0),
-                           "reused": rec.get("reused", 0), "trace": tr})
+                           "reused": rec.get("reused", 0), "tz": rec.get("tz"), "trace": tr})
     ctx.traces_validated += len(traces)
     return accepted, rejected, traces
 
 
-def _spec_mutant(workdir):
-    """Non-vacuity of GroundSite.tla: each named deviation must be refuted by TLC."""
+def _mutant_invert(workdir):
     base = (tlc.SPEC_DIR / "GroundSite_quick.cfg").read_text().replace("INVARIANT Emit\n", "")
     cfg = base.replace("InvertStartBySecTruncation = FALSE", "InvertStartBySecTruncation = TRUE")
-    killed = set()
-    for drop in ((), ("StartInversionExact", "SiteEpochAgrees")):
-        c = cfg
-        for name in drop:
-            c = c.replace(f"INVARIANT {name}\n", "")
-        res = tlc.run_tlc("GroundSite", c, workdir, workers=2, timeout=600)
-        tlc.require_ok(res, "GroundSite (as-coded start inversion)")
-        killed |= {v[0] for v in res.invariant_violations}
+    for name in ("StartInversionExact", "SiteEpochAgrees"):      # (they fail first; the point is SiteFixed)
+        cfg = cfg.replace(f"INVARIANT {name}\n", "")
+    res = tlc.run_tlc("GroundSite", cfg, workdir, workers=1, timeout=600)
+    tlc.require_ok(res, "GroundSite (as-coded start inversion)")
+    killed = {v[0] for v in res.invariant_violations}
     if "SiteFixed" not in killed and "VelIsRotation" not in killed:
         raise tlc.MachineryError("GroundSite.tla: the as-coded start inversion does not violate SiteFixed (vacuous spec)")
+    return {"GroundSite.InvertStartBySecTruncation": sorted(killed)}
+
+
+def _mutant_join(workdir):
+    base = (tlc.SPEC_DIR / "GroundSite_quick.cfg").read_text().replace("INVARIANT Emit\n", "")
     res = tlc.run_tlc("GroundSite", base.replace("CaptureAtJoinEpoch = FALSE", "CaptureAtJoinEpoch = TRUE"), workdir,
-                      workers=2, timeout=600)
+                      workers=1, timeout=600)
     tlc.require_ok(res, "GroundSite (site captured at the join epoch)")
     killed_join = sorted({v[0] for v in res.invariant_violations})
     if "SiteFixed" not in killed_join:
         raise tlc.MachineryError("GroundSite.tla: capturing the site at the join epoch does not violate SiteFixed (vacuous spec)")
+    return {"GroundSite.CaptureAtJoinEpoch": killed_join}
+
+
+def _mutant_cache(workdir):
+    base = (tlc.SPEC_DIR / "GroundSite_quick.cfg").read_text().replace("INVARIANT Emit\n", "")
     res = tlc.run_tlc("GroundSite", base.replace("CacheIgnoresEpoch = FALSE", "CacheIgnoresEpoch = TRUE")
-                      .replace("INVARIANT ConvertIgnoresHistory\n", ""), workdir, workers=2, timeout=600)
+                      .replace("INVARIANT ConvertIgnoresHistory\n", ""), workdir, workers=1, timeout=600)
     tlc.require_ok(res, "GroundSite (conversion memoised on the config object)")
     killed_cache = sorted({v[0] for v in res.invariant_violations})
     if "SiteFixed" not in killed_cache:
         raise tlc.MachineryError("GroundSite.tla: a conversion cache that ignores the epoch does not violate SiteFixed (vacuous spec)")
-    return {"GroundSite.InvertStartBySecTruncation": sorted(killed), "GroundSite.CaptureAtJoinEpoch": killed_join,
-            "GroundSite.CacheIgnoresEpoch": killed_cache}
+    return {"GroundSite.CacheIgnoresEpoch": killed_cache}
+
+
+def _mutant_zone(workdir):
+    zcfg = (tlc.SPEC_DIR / "GroundSite_zones_quick.cfg").read_text().replace("INVARIANT Emit\n", "")
+    res = tlc.run_tlc("GroundSite", zcfg.replace("LocalTimeEpoch = FALSE", "LocalTimeEpoch = TRUE")
+                      .replace("INVARIANT SiteEpochAgrees\n", ""), workdir, workers=1, timeout=600)
+    tlc.require_ok(res, "GroundSite (epochs built through the host's local time)")
+    killed_zone = sorted({v[0] for v in res.invariant_violations})
+    if "SiteFixed" not in killed_zone:
+        raise tlc.MachineryError("GroundSite.tla: epochs through the host's local time do not violate SiteFixed (vacuous spec)")
+    return {"GroundSite.LocalTimeEpoch": killed_zone}
 
 
 def run(ctx: Ctx):
@@ -551,7 +654,9 @@ def run(ctx: Ctx):
                 "the last site (thorough: the last two) joins after 0..3 (thorough 0..4) steps (join classes printed by "
                 "TLC; long runs: after 1.5-6 h) through Scenario.addSensor(config object); about half of the sites use a "
                 "config object already converted by a scenario with another start instant (reuse classes printed by TLC); "
-                "every agent is also observed at its creation / join instant")
+                "every agent is also observed at its creation / join instant; plus one scenario per start second "
+                "(thorough: 8) under a non-UTC host time zone (fixed offset; US / EU / southern daylight-saving rules on "
+                "ordinary days and across the spring-forward and fall-back switches, zone classes printed by TLC)")
     ctx.assumptions = [
         "eci2ecef / lla2ecef of the implementation are used as the projection to Earth-fixed coordinates (subject of C04)",
         "authoritative epoch of step k is start + k*step by datetime arithmetic",
@@ -562,15 +667,25 @@ def run(ctx: Ctx):
     ]
     nproc = max(2, min(10, ctx.cpus - 2))
     pool = mp.get_context("fork").Pool(nproc, initializer=_init_worker)      # forked before any thread exists
+    # one dedicated, freshly SPAWNED process per non-UTC host time zone: TZ is set there before anything is
+    # imported, the process serves only that zone's tasks and is discarded (no leak into other tasks)
+    tzs = [TZ_FIXED] + [TZ_RULES[n][0] for n in sorted(TZ_RULES)]
+    tz_pools = {tz: mp.get_context("spawn").Pool(1 if ctx.quick else 2, initializer=_init_tz_worker, initargs=(tz,))
+                for tz in tzs}
     try:
-        with ThreadPoolExecutor(4) as ex:
+        with ThreadPoolExecutor(9) as ex:
+            f_zone = ex.submit(tlc.run_tlc, "GroundSite",
+                               "GroundSite_zones_quick.cfg" if ctx.quick else "GroundSite_zones_thorough.cfg",
+                               ctx.sub("zones"), workers=2, timeout=1500)
             f_site = ex.submit(tlc.run_tlc, "GroundSite", "GroundSite_quick.cfg" if ctx.quick else "GroundSite_thorough.cfg",
                                ctx.sub("site"), workers=max(2, ctx.cpus // 4), timeout=1500)
             f_plan = ex.submit(tlc.run_tlc, "GroundSite",
                                "GroundSite_plans_quick.cfg" if ctx.quick else "GroundSite_plans_thorough.cfg",
                                ctx.sub("plans"), workers=max(2, ctx.cpus // 4), timeout=1500)
             f_cal = ex.submit(cal.run_seconds, "Calendar_c11.cfg", ctx.sub("cal"), max(2, ctx.cpus // 4))
-            f_mut = ex.submit(_spec_mutant, ctx.sub("site_mutant"))
+            # non-vacuity of GroundSite.tla: each named deviation must be refuted by TLC
+            f_muts = [ex.submit(_mutant_invert, ctx.sub("mutant_invert")), ex.submit(_mutant_join, ctx.sub("mutant_join")),
+                      ex.submit(_mutant_cache, ctx.sub("mutant_cache")), ex.submit(_mutant_zone, ctx.sub("mutant_zone"))]
             site_res = cal.spec_fail(f_site.result(), "GroundSite.tla")
             cal_res, ticks = f_cal.result()
             phase["tlc_specs"] = round(time.time() - t0, 1)
@@ -583,6 +698,12 @@ def run(ctx: Ctx):
             idx = cal.DayIndex(list(dn.items()))
             tasks = _tasks(ctx, site_cfgs, mids, rng)
             sc_async = pool.map_async(_dispatch, tasks, chunksize=2)
+            zone_res = cal.spec_fail(f_zone.result(), "GroundSite.tla (host time zones)")
+            ctx.add_tlc(zone_res, "GroundSite.tla over host time-zone classes (UTC, fixed offset, daylight-saving switches)")
+            ztasks = _zone_tasks(ctx, zone_res.tagged("SITE"), 100000)
+            if not ztasks:
+                raise tlc.MachineryError("GroundSite.tla emitted no host time-zone configuration")
+            z_async = {tz: tz_pools[tz].map_async(_dispatch, [t for t in ztasks if t["tz"] == tz], chunksize=1) for tz in tzs}
             plan_res = cal.spec_fail(f_plan.result(), "GroundSite.tla (step plans)")
             ctx.add_tlc(plan_res, "GroundSite.tla with step plans (late small steps, whole-day steps, mixtures)")
             plan_cfgs = [c for c in plan_res.tagged("SITE") if c["plan"]]
@@ -592,10 +713,28 @@ def run(ctx: Ctx):
             praw = pool.map(_dispatch, ptasks, chunksize=1)
             raw = sc_async.get(timeout=6000)
             phase["scenarios_and_plans_done"] = round(time.time() - t0, 1)
-            killed = f_mut.result()
+            zraw = {}
+            for tz in tzs:
+                for t, r in zip([t for t in ztasks if t["tz"] == tz], z_async[tz].get(timeout=6000)):
+                    zraw[t["id"]] = r
+            phase["zone_scenarios_done"] = round(time.time() - t0, 1)
+            killed = {}
+            for f in f_muts:
+                killed.update(f.result())
     finally:
         pool.terminate()
         pool.join()
+        for zp in tz_pools.values():
+            zp.terminate()
+            zp.join()
+    # the zone tasks really ran in their zone, and the runs placed across a switch really crossed one
+    for t in ztasks:
+        r = zraw[t["id"]]
+        if not r["crash"] and (r["tz_env"][0] != t["tz"] or r["tz_switch_seen"] != t["tz_crosses"]):
+            raise tlc.MachineryError(f"host time zone not as posed for {t['start']} TZ={t['tz']}: process reports "
+                                     f"{r['tz_env']}, switch seen={r['tz_switch_seen']}, posed={t['tz_crosses']}")
+    tasks = tasks + ztasks
+    raw = list(raw) + [zraw[t["id"]] for t in ztasks]
     items = []
     n_steps = short = 0
     for t, r in zip(tasks, raw):
@@ -611,7 +750,7 @@ def run(ctx: Ctx):
         for rec in r["agents"]:
             items.append((t, rec))
             n_steps += len(rec["st"])
-            ctx.case((t["start"], t["dt"], tuple(rec["site"]), rec.get("join", 0), rec.get("reused", 0)),
+            ctx.case((t["start"], t["dt"], tuple(rec["site"]), rec.get("join", 0), rec.get("reused", 0), t.get("tz", "UTC")),
                      sample={"start": t["start"], "dt": t["dt"], "site": rec["site"], "join": rec.get("join", 0),
                              "boundary": t["boundary"],
                              "crosses_midnight": t["crosses"], "last_step": rec["st"][-1]} if len(items) % 131 == 1 else None)
@@ -639,7 +778,10 @@ def run(ctx: Ctx):
                      start_seconds_covered=len({t["start"][-2:] for t in tasks}),
                      spec_mutants_killed=killed, phase_done_at_s=phase,
                      late_joining_agent_traces=sum(1 for _t, rec in items if rec.get("join", 0) > 0),
-                     agent_traces_from_reused_config_objects=sum(1 for _t, rec in items if rec.get("reused", 0)))
+                     agent_traces_from_reused_config_objects=sum(1 for _t, rec in items if rec.get("reused", 0)),
+                     scenarios_under_non_utc_host_zone=len(ztasks),
+                     scenarios_crossing_a_daylight_saving_switch=sum(1 for t in ztasks if t["tz_crosses"]),
+                     host_time_zones=["UTC"] + tzs)
 
 
 def replay(ctx: Ctx, rp: dict):
@@ -661,7 +803,15 @@ def replay(ctx: Ctx, rp: dict):
             t["sites"] = [(LATS[1], 10.0, ALTS[1])] + t["sites"]
             t["joins"] = [0] + [rep["join"]] * (len(t["sites"]) - 1)
         t["reused"] = [rep.get("reused", 0)] * len(t["sites"])
-        r = _run_sites(t)
+        if rep.get("tz") and rep["tz"] != "UTC":
+            t["tz"] = rep["tz"]
+            with mp.get_context("spawn").Pool(1, initializer=_init_tz_worker, initargs=(rep["tz"],)) as zp:
+                r = zp.apply(_run_sites, (t,))
+            r_done = True
+        else:
+            r_done = False
+        if not r_done:
+            r = _run_sites(t)
     if r["crash"]:
         ctx.violation(f"ground-scenario-raised-{r['crash'].split(':')[0]}", r["crash"], rep)
         return None
